@@ -525,10 +525,18 @@ impl<'a> Env<'a> {
     }
 
     fn associated_in(&self, path: &str, depth: &mut usize) -> Vec<Method<'a>> {
-        *depth += 1;
-        if *depth > 64 {
+        // `depth` is the depth of the recursion (a guard against cyclic base declarations), not
+        // a budget of calls: diamond hierarchies visit the same type many times
+        if *depth >= 64 {
             return vec![];
         }
+        *depth += 1;
+        let out = self.associated_at(path, depth);
+        *depth -= 1;
+        out
+    }
+
+    fn associated_at(&self, path: &str, depth: &mut usize) -> Vec<Method<'a>> {
         let mut used: BTreeSet<String> = BTreeSet::new();
         if let Some((_, fs, size)) = self.virtuals(path) {
             if let Ok(sl) = slots(fs, size) {
